@@ -94,13 +94,15 @@ def run(case, ctx):
             if os.path.exists(p0):
                 os.remove(p0)
         LOG.n("c12.saved_twice")
+        shift = 0
         for op in case["again"]:
             q = seqs[op["s"] % len(seqs)]
             if op["op"] == "transpose":
                 # applied to every sequence alike and only when nothing wraps: keeps the input inside the property's scope
                 # (well-formed after channel erasure, one key per tick over all carriers)
-                allp = [n[1] for sq in case["seqs"] for n in sq["notes"]]
+                allp = [n[1] + shift for sq in case["seqs"] for n in sq["notes"]]
                 if all(21 <= pp + op["k"] <= 108 for pp in allp):
+                    shift += op["k"]
                     for x in seqs:
                         x.transpose(op["k"])
             elif op["op"] == "scale":
